@@ -876,6 +876,9 @@ def traversal_check(rep, rid, sh, rel, qual, fn, enum, rec_names, exceptions=Non
             else:
                 rep.bad(rid, key + "#unhandled", sh.loc(rel, m), "%s::%s is not handled by %s" % (enum["name"], v, qual))
             continue
+        if v in exceptions:
+            rep.ok(rid, key, sh.loc(rel, explicit[v][0][0]), why="reviewed: " + exceptions[v])
+            continue
         # explicit arm(s): every child must be bound and mentioned in some arm for this variant
         problems = []
         for a, alt in explicit[v]:
